@@ -81,7 +81,43 @@ impl From<HttpError> for MyErr {
     }
 }
 
+// named types that are only reachable *transitively* from a response header or a query parameter
+#[derive(Serialize, Deserialize, JsonSchema)]
+enum Freshness {
+    Fresh,
+    Stale,
+}
+#[derive(Serialize, Deserialize, JsonSchema)]
+struct CacheState(Freshness);
+#[derive(Serialize, JsonSchema)]
+struct NestedHeaders {
+    #[serde(rename = "x-cache")]
+    cache: CacheState,
+    #[serde(rename = "x-plain")]
+    plain: String,
+}
+#[derive(Serialize, Deserialize, JsonSchema)]
+enum Level {
+    Low,
+    High,
+}
+#[derive(Serialize, Deserialize, JsonSchema)]
+struct LevelWrap(Level);
+#[derive(Serialize, Deserialize, JsonSchema)]
+struct LevelWrap2(LevelWrap);
+#[derive(Deserialize, JsonSchema)]
+struct NestedQuery {
+    level: Option<LevelWrap2>,
+    plain: Option<u8>,
+}
+
 type Rq = RequestContext<DynCtx>;
+async fn h_hdr(_: Rq, _p: Path<DynPath>) -> Result<dropshot::HttpResponseHeaders<HttpResponseOk<Leaf>, NestedHeaders>, HttpError> {
+    unreachable!()
+}
+async fn h_query(_: Rq, _p: Path<DynPath>, _q: dropshot::Query<NestedQuery>) -> Result<HttpResponseOk<Leaf>, HttpError> {
+    unreachable!()
+}
 async fn h_value(_: Rq, _p: Path<DynPath>) -> Result<HttpResponseOk<Value>, HttpError> {
     unreachable!()
 }
@@ -110,7 +146,7 @@ async fn h_body_dup(_: Rq, _p: Path<DynPath>, _b: TypedBody<dup_b::Dup>) -> Resu
     unreachable!()
 }
 
-const N_KINDS: u8 = 9;
+const N_KINDS: u8 = 11;
 
 fn make_zoo_endpoint(e: &MEndpoint, kind: u8, tags: &[String], deprecated: bool) -> ApiEndpoint<DynCtx> {
     // sets the thread-local path spec
@@ -129,7 +165,9 @@ fn make_zoo_endpoint(e: &MEndpoint, kind: u8, tags: &[String], deprecated: bool)
         5 => ApiEndpoint::new(op, h_dup_b, m, ct, &t, v),
         6 => ApiEndpoint::new(op, h_err, m, ct, &t, v),
         7 => ApiEndpoint::new(op, h_body, m, ct, &t, v),
-        _ => ApiEndpoint::new(op, h_body_dup, m, ct, &t, v),
+        8 => ApiEndpoint::new(op, h_body_dup, m, ct, &t, v),
+        9 => ApiEndpoint::new(op, h_hdr, m, ct, &t, v),
+        _ => ApiEndpoint::new(op, h_query, m, ct, &t, v),
     }
     .visible(e.visible)
     .deprecated(deprecated);
